@@ -1380,13 +1380,35 @@ def run_stack_model(env, case, seqs=None):
     return r['runs']
 
 
-def stack_monitor(case, runs):
+def flat_ops(case, seqs=None):
+    """The session as the sequence of events it was: a `clearSeq` becomes the look-ups other threads completed WHILE
+    the clear was going on (marked `during`), the clear itself, then the look-ups made after it had returned."""
+    out, k = [], 0
+    for op in case['ops']:
+        if op['op'] != 'clearSeq':
+            out.append(op)
+            continue
+        n = seqs[k]['n'] if seqs and k < len(seqs) else len(op['gaps'])
+        k += 1
+        # the call STARTS, the look-ups of the gaps complete while it goes on (each before or after the single clear of
+        # its layer: judged against the clears BEFORE the call, but what they store is stored after the call began)
+        out.append(dict({'op': 'clearAll'} if op['fn'] == 'clear_all' else {'op': 'clearPipes', 'l': None}, seq=op['fn']))
+        for gap in op['gaps'][:n]:
+            out.extend(dict(g, during=op['fn']) for g in gap)
+        for gap in op['gaps'][n:]:
+            out.extend(gap)
+    return out
+
+
+def stack_monitor(case, runs, seqs=None):
     """The property text on the implementation's own observations, without the model:
     * a run executes a version of ITS OWN (loader, parent, name) source — never another request's;
     * "a clear makes the next look-up create afresh": the version that runs was current at some moment since the
       layers on the request's path were last emptied (custom loader l: clear_all, loader_cache.clear, clear_pipes(l),
       clear_pipes(), Loader.clear; file loader: clear_all, or file_cache.clear together with one of the former with
-      no file-loader run in between);
+      no file-loader run in between). `clear_all()` / `clear_pipes()` called while other threads complete look-ups
+      between its single clears (`clearSeq`): the look-ups made DURING the call may be served either way; once the call
+      has returned the clause applies as for any clear - whatever happened in the gaps;
     * "with caching disabled … identically except that items are re-created": with no_cache the version that runs is
       the present one and the definition is re-created by every run;
     * "a creator that raises leaves nothing cached so a later look-up tries again": a look-up FAILS only if its
@@ -1408,9 +1430,17 @@ def stack_monitor(case, runs):
     t_files = 0                               # last time file_cache was emptied
     file_runs = []                            # times of file-loader runs
     k = 0
-    for op in case['ops']:
+    last_seq = None                           # the most recent clear was a call with look-ups between its single clears
+    pre = (0, {0: 0, 1: 0, 2: 0}, 0)           # (t_all, t_pipes, t_files) before that call
+    pre_rejected = {}
+    for op in flat_ops(case, seqs):
         t += 1
         kind = op['op']
+        if kind.startswith('clear'):
+            last_seq = op.get('seq')
+            if last_seq:
+                pre = (t_all, dict(t_pipes), t_files)
+                pre_rejected = dict(rejected)
         if kind == 'world':
             world = op['world']
             hist.append((t, world))
@@ -1435,6 +1465,8 @@ def stack_monitor(case, runs):
             k += 1
             l, i = op['l'], op['rq']
             sig = {'clause': 'clear_refreshes', 'layer': 'stack', 'via': op['via'], 'loader': 'file' if l == 0 else 'custom'}
+            if last_seq:
+                sig['clear'] = last_seq + ' with look-ups of another thread between its single clears'
             ran = obs['ran']
             if isinstance(ran, dict):
                 out.append((dict(sig, clause='transparent'), f'run {k - 1} ({op}) ended unexpectedly: {ran}'))
@@ -1446,11 +1478,12 @@ def stack_monitor(case, runs):
             if ran is None and not nc and now is not None:
                 # a failure although the source is there and well-formed now: some table served a failure
                 src = f'({LOADER_NAMES[l]}, {rqs[i]["parent"]}, {rqs[i]["name"]})'
-                if l == 0 and obs.get('err') == 'PipelineDefinitionError' and not obs['fileRead'] and f_now in rejected:
+                known = rejected if not op.get('during') else {**pre_rejected, **rejected}
+                if l == 0 and obs.get('err') == 'PipelineDefinitionError' and not obs['fileRead'] and f_now in known:
                     out.append((dict(KF_REJECTED),
                                 f'run {k - 1} (via {op["via"]}) of {src} was rejected ({obs.get("err")}) without reading any '
                                 f'file although {f_now} now holds the well-formed version {now}: its malformed parse, '
-                                f'rejected at op {rejected[f_now]}, is still in file_cache'))
+                                f'rejected at op {known[f_now]}, is still in file_cache'))
                 else:
                     out.append((dict(sig, clause='failure_not_cached'),
                                 f'run {k - 1} (via {op["via"]}) of {src} failed ({obs.get("err")}) although its source is '
@@ -1469,12 +1502,15 @@ def stack_monitor(case, runs):
                 elif not obs['defMade']:
                     out.append((dict(sig, clause='no_cache'), f'run {k - 1} with no_cache did not re-create the pipeline definition'))
             else:
+                # a look-up completed WHILE a clear_all / clear_pipes call was going on may have come before the single
+                # clear of its layer: it is judged against the clears before that call
+                c_all, c_pipes, c_files = pre if op.get('during') else (t_all, t_pipes, t_files)
                 if l == 0:
-                    lo, hi = sorted((t_files, t_pipes[0]))
-                    since = hi if not any(lo < x < hi for x in file_runs) else t_all
-                    since = max(since, t_all)
+                    lo, hi = sorted((c_files, c_pipes[0]))
+                    since = hi if not any(lo < x < hi for x in file_runs) else c_all
+                    since = max(since, c_all)
                 else:
-                    since = t_pipes[l]
+                    since = c_pipes[l]
                 # worlds in force at some moment in [since, now]
                 cands = [w for j, (tw, w) in enumerate(hist)
                          if (hist[j + 1][0] if j + 1 < len(hist) else t + 1) > since]
@@ -1503,7 +1539,12 @@ KF_REJECTED = {'site': 'file_cache', 'cause': 'malformed-top-level-cached-before
 def check_stack_case(env, res, case, count=True):
     info = {}
     impl = run_stack_impl(case, info)
-    model = run_stack_model(env, case)
+    seqs = info.get('seqs')
+    model = run_stack_model(env, case, seqs)
+    for sq in seqs or []:
+        if sq['fn'] == 'clear_all' and sq['order'] != clear_all_order()[0]:
+            res.mismatch(case, {'clear_all order (ast)': clear_all_order()[0]}, {'clear_all order (run)': sq['order']},
+                         note='clear_all cleared the caches in another order than its source text says')
     # the assumptions of the two-lock model, watched on the real clients: no creator looks up its own cache; look-ups
     # nest only as pipeline cache -> file_cache
     for kind, key in info.get('reentries', [])[:1]:
@@ -1520,8 +1561,13 @@ def check_stack_case(env, res, case, count=True):
     if count:
         res.count('stack')
         for op in case['ops']:
-            res.count('stack:' + op['op'] + (':' + op['via'] if op['op'] == 'run' else ''))
-    vs = stack_monitor(case, impl)
+            res.count('stack:' + op['op'] + (':' + op['via'] if op['op'] == 'run' else '')
+                      + (':' + op['fn'] if op['op'] == 'clearSeq' else ''))
+            if op['op'] == 'clearSeq':
+                for gi, gap in enumerate(op['gaps']):
+                    if gap:
+                        res.count(f'stack:clearSeq:{op["fn"]}:look-up-before-clear#{gi}', len(gap))
+    vs = stack_monitor(case, impl, seqs)
     # the open finding first, then at most three others: neither hides the other
     kf = [v for v in vs if v[0] == KF_REJECTED]
     for sig, detail in kf[:1] + [v for v in vs if v[0] != KF_REJECTED][:3]:
@@ -1691,6 +1737,27 @@ def directed_stack_cases():
                 mk([run, 'edit', run] + cs + [run, run, 'edit', run], tag=f'refresh:{via}')
             mk([run, 'edit', {'op': 'clearAll'}, 'edit', run, {'op': 'clearAll'}, run], tag=f'refresh2:{via}')
             mk([run, 'edit', run, run], noCache=True, tag=f'nocache:{via}')
+    # clear_all() / clear_pipes() as the sequences of single clears they are: another thread completes a look-up of the
+    # same pipeline before the j-th single clear (every j, one at a time and all at once); the source was edited
+    # before; afterwards the next look-ups (same client object, a new one) must execute the present source
+    nall = len(clear_all_order()[0]) + 1
+    for l, i, noparent in targets:
+        for via in VIAS_ANY + (VIAS_NOPARENT if noparent else []):
+            run = {'op': 'run', 'c': 0, 'l': l, 'rq': i, 'via': via}
+            other = {'op': 'run', 'c': 8, 'l': l, 'rq': i, 'via': 'new' if via != 'new' else 'pype'}
+            same = {'op': 'run', 'c': 0, 'l': l, 'rq': i, 'via': via}
+            for j in (list(range(nall + 1)) if via in ('obj', 'new') else []) + ['all']:
+                gaps = [[dict(other)] if j in (g, 'all') else [] for g in range(nall + 1)]
+                if j == 'all':
+                    gaps[1].append(dict(same))
+                mk([run, 'edit', {'op': 'clearSeq', 'fn': 'clear_all', 'gaps': gaps}, run, other, 'edit', run],
+                   tag=f'seq:clear_all:{via}')
+            for j in ((1, 'all') if via in ('obj', 'new') else ('all',)):
+                gaps = [[dict(other)] if j in (g, 'all') else [] for g in range(4)]
+                r1 = {'op': 'run', 'c': 9, 'l': 1, 'rq': rq_index(rqs, 1, None, 'n'), 'via': 'new'}
+                r2 = {'op': 'run', 'c': 9, 'l': 2, 'rq': rq_index(rqs, 2, '/x/a', 'b+c'), 'via': 'new'}
+                mk([r1, r2, run, 'edit', {'op': 'clearFiles'}, {'op': 'clearSeq', 'fn': 'clear_pipes', 'gaps': gaps},
+                    run, r1, r2, other], tag=f'seq:clear_pipes:{via}')
     # one Pipeline object, the parent changes from call to call
     for via in ('obj', 'step', 'new'):
         seq = [rq_index(rqs, 0, '/T/d0', 'vc13p'), rq_index(rqs, 0, '/T/d1', 'vc13p'), rq_index(rqs, 0, '/T/missing', 'vc13p'),
@@ -1787,6 +1854,22 @@ def random_stack_case(rng):
         elif x < 0.75:
             w = edit_world(w, ver, rng)
             ops.append({'op': 'world', 'world': w})
+        elif x < 0.80:
+            fn = rng.choice(['clear_all', 'clear_all', 'clear_pipes'])
+            gaps = []
+            for _g in range(rng.randint(1, 8)):
+                gap = []
+                while rng.random() < 0.45:
+                    gl = rng.choice([0, 0, 1, 2])
+                    gi = rng.choice([i for i, rq in enumerate(rqs) if rq['for'] == (0 if gl == 0 else 'custom')])
+                    # earlier requests again, more often than not: the look-up in the gap is of a pipeline that is cached
+                    prev = [o for o in ops if o['op'] == 'run']
+                    if prev and rng.random() < 0.7:
+                        o = rng.choice(prev)
+                        gl, gi = o['l'], o['rq']
+                    gap.append({'op': 'run', 'c': 20 + rng.randrange(3), 'l': gl, 'rq': gi, 'via': rng.choice(['new', 'pype'])})
+                gaps.append(gap)
+            ops.append({'op': 'clearSeq', 'fn': fn, 'gaps': gaps})
         elif x < 0.93:
             op = dict(rng.choice(CLEARS + [{'op': 'clearPipes', 'l': rng.choice([0, 1, 2]),
                                             'how': rng.choice(['clear_pipes', 'Loader.clear'])}] * 2))
